@@ -74,14 +74,29 @@ REQ_GC
 ASSIGNS_GS_CALLEE
 ENS_MONO;
 
+/* the same, as the BODY of a LOOP / WHILE: the call records what the construct had set up when its body begins (value of the
+ * construct's first label, code size) in ghosts, so that the construct's contract can speak about that intermediate state */
+int g_rec_calls, g_rec_l2;
+unsigned long g_rec_gnc;
+void c_dispatchVoid_rec(void *p, void *c)
+REQ_GS(p)
+__CPROVER_requires(NLAB >= 2)
+__CPROVER_assigns(g_gs->out.code._n, __CPROVER_object_whole(GCODE), g_gs->labels._n, __CPROVER_object_whole(LABS),
+                  g_gs->backpatching_todo._n, __CPROVER_object_whole(BPS), g_gs->errors._n, __CPROVER_object_whole(g_gs->errors._d),
+                  g_top->register_state._n, __CPROVER_object_whole(REGS), g_top->marks._n, __CPROVER_object_whole(MARKS), g_gs->loops,
+                  g_rec_calls, g_rec_l2, g_rec_gnc)
+ENS_MONO
+__CPROVER_ensures(g_rec_calls == OLD(g_rec_calls) + 1 && g_rec_l2 == OLD(LABS[NLAB - 2]) && g_rec_gnc == OLD(GNC));
+
 /* ------------------------------------------------------------------ dispatchLoop: LOOP x DO body END
  *   ctr := value(x) ; L_start: JMPC L_end, ctr ; body ; ADD ctr, ctr, -1 ; JMP L_start ; L_end:                      */
 void c_dispatchLoop(void *p, void *c)
 REQ_GS(p)
 REQ_GC
-__CPROVER_requires(NODE_OK(c))
+__CPROVER_requires(NODE_OK(c) && g_rec_calls == 0)
 __CPROVER_requires(LOOPS < INT_MAX)
 ASSIGNS_GS
+__CPROVER_assigns(g_rec_calls, g_rec_l2, g_rec_gnc)
 ENS_MONO
 /* C16: every loop gets its own counter name (the loop number advances) */
 __CPROVER_ensures(LOOPS > OLD(LOOPS)) /*@C16,C01*/
@@ -93,18 +108,33 @@ __CPROVER_ensures(GOP(GNC - 2) == OP_ADD_CONST && GPAR(GNC - 2, PI_add_target) =
 /* the counter is a register of the frame, the jump operand is a label of this loop whose position is the loop head:
  * a JMPC on the same counter to the other label of this loop, and that label is the end of the loop */
 __CPROVER_ensures(GPAR(GNC - 2, PI_add_target) >= 0 && (unsigned long)GPAR(GNC - 2, PI_add_target) < NREG) /*@C03*/
-__CPROVER_ensures(GPAR(GNC - 1, PI_jmp_offset) >= 0 && (unsigned long)GPAR(GNC - 1, PI_jmp_offset) + 1 < NLAB) /*@C03,C01*/;
+__CPROVER_ensures(GPAR(GNC - 1, PI_jmp_offset) >= 0 && (unsigned long)GPAR(GNC - 1, PI_jmp_offset) + 1 < NLAB) /*@C03,C01*/
+/* when the body begins, the label the back edge names is set to the loop head: the JMPC on the counter emitted just before the
+ * body (so every iteration re-tests the counter, and the stop site of the header - emitted before the construct - is not
+ * revisited); the loop's other label is set to the end of the construct */
+__CPROVER_ensures(g_rec_calls == 1 && g_rec_gnc >= 1 && g_rec_l2 == (int)g_rec_gnc - 1) /*@C01,C16,C07*/
+/* (the instruction before the body, named through the arbitrary position g_c that the callee contracts preserve) */
+__CPROVER_ensures(g_c + 1 != g_rec_gnc || (GOP(g_c) == OP_JMPC && GPAR(g_c, PI_jmpc_source) == GPAR(GNC - 2, PI_add_target) &&
+                  GPAR(g_c, PI_jmpc_offset) == GPAR(GNC - 1, PI_jmp_offset) + 1)) /*@C01,C16*/
+__CPROVER_ensures(LABS[GPAR(GNC - 1, PI_jmp_offset) + 1] == (int)GNC) /*@C01,C16*/;
 
 /* ------------------------------------------------------------------ dispatchWhile: WHILE x != 0 DO body END
  *   L_start: cond := value(x) ; JMPC L_end, cond ; body ; JMP L_start ; L_end:                                       */
 void c_dispatchWhile(void *p, void *c)
 REQ_GS(p)
-__CPROVER_requires(NODE_OK(c))
+__CPROVER_requires(NODE_OK(c) && g_rec_calls == 0)
 ASSIGNS_GS
+__CPROVER_assigns(g_rec_calls, g_rec_l2, g_rec_gnc)
 ENS_MONO
 __CPROVER_ensures(NLAB >= OLD(NLAB) + 2 && NBP >= OLD(NBP) + 2 && GNC >= OLD(GNC) + 2) /*@C01,C03*/
 /* the construct ends with the jump back to ITS OWN start label (the first label it created), recorded for backpatching */
-__CPROVER_ensures(GOP(GNC - 1) == OP_JMP && GPAR(GNC - 1, PI_jmp_offset) == (int)OLD(NLAB) && BPS[NBP - 1] == (int)GNC - 1) /*@C01*/;
+__CPROVER_ensures(GOP(GNC - 1) == OP_JMP && GPAR(GNC - 1, PI_jmp_offset) == (int)OLD(NLAB) && BPS[NBP - 1] == (int)GNC - 1) /*@C01*/
+/* when the body begins, the start label is set to the first instruction of the condition code, i.e. the code position at which
+ * the construct began: AFTER the stop site of the WHILE header, which is therefore visited once per entry, not per iteration
+ * (C07); the exit test JMPC precedes the body and names the construct's second label, which is set to the end of the construct */
+__CPROVER_ensures(g_rec_calls == 1 && g_rec_l2 == (int)OLD(GNC)) /*@C01,C07*/
+__CPROVER_ensures(g_rec_gnc >= 1 && (g_c + 1 != g_rec_gnc || (GOP(g_c) == OP_JMPC && GPAR(g_c, PI_jmpc_offset) == (int)OLD(NLAB) + 1))) /*@C01*/
+__CPROVER_ensures(LABS[OLD(NLAB) + 1] == (int)GNC) /*@C01*/;
 
 /* ------------------------------------------------------------------ dispatchGoto / dispatchMark: per-routine mark table */
 #define REQ_MARK_PICKS                                                                    \
@@ -428,7 +458,7 @@ int w_fetchVariableRegister(void *p, long name_id);
 void w_dispatchLoop(void *p, void *c);
 void h_fetchTemporary(void) { void *p = setup(); w_fetchTemporary(p); CANARY; }
 void h_fetchVariableRegister(void) { void *p = setup(); w_fetchVariableRegister(p, nondet_long()); CANARY; }
-void h_dispatchLoop(void) { void *p = setup(); void *c; w_dispatchLoop(p, c); CANARY; }
+void h_dispatchLoop(void) { void *p = setup(); void *c; g_rec_calls = 0; w_dispatchLoop(p, c); CANARY; }
 static node_t n_prog, n_hdr, n_pname, n_ports, n_pargs, n_pout, n_body;
 void w_dispatchProgram(void *p, void *c);
 void h_dispatchProgram(void)
@@ -445,7 +475,7 @@ void w_backpatch(void *p);
 void h_backpatch(void) { void *p = setup(); g_cfree = nondet_ulong(); gb_loc = nondet_int(); gb_op = nondet_int(); gb_lab = nondet_int(); gb_p1 = nondet_int(); gb_p2 = nondet_int(); gb_tgt = nondet_int(); w_backpatch(p); CANARY; }
 void w_dispatchWhile(void *p, void *c); void w_dispatchGoto(void *p, void *c); void w_dispatchMark(void *p, void *c);
 void w_dispatchAssign(void *p, void *c); void w_dispatchArgs(void *p, void *c);
-void h_dispatchWhile(void) { void *p = setup(); void *c; w_dispatchWhile(p, c); CANARY; }
+void h_dispatchWhile(void) { void *p = setup(); void *c; g_rec_calls = 0; w_dispatchWhile(p, c); CANARY; }
 void h_dispatchGoto(void) { void *p = setup(); void *c; g_w = nondet_ulong(); w_dispatchGoto(p, c); CANARY; }
 void h_dispatchMark(void) { void *p = setup(); void *c; g_w = nondet_ulong(); w_dispatchMark(p, c); CANARY; }
 void h_dispatchAssign(void) { void *p = setup(); void *c; w_dispatchAssign(p, c); CANARY; }
